@@ -38,7 +38,10 @@ from guppylang_internals.definition.value import CompiledCallableDef
 from guppylang_internals.diagnostic import Error
 from guppylang_internals.engine import ENGINE
 from guppylang_internals.error import GuppyError, InternalGuppyError
-from guppylang_internals.std._internal.compiler.tket_exts import GUPPY_EXTENSION
+from guppylang_internals.std._internal.compiler.tket_exts import (
+    GUPPY_EXTENSION,
+    QSYSTEM_EXTENSION,
+)
 from guppylang_internals.tys.arg import ConstArg, TypeArg
 from guppylang_internals.tys.builtin import nat_type
 from guppylang_internals.tys.common import ToHugrContext
@@ -568,6 +571,11 @@ EXTENSION_OPS_WITH_SIDE_EFFECTS: list[str] = [
     QUANTUM_EXTENSION.get_op("TryQAlloc").qualified_name(),
     QUANTUM_EXTENSION.get_op("QFree").qualified_name(),
     QUANTUM_EXTENSION.get_op("MeasureFree").qualified_name(),
+    # The qsystem extension has its own operations that release a qubit
+    *(
+        f"{QSYSTEM_EXTENSION.name}.{op_name}"
+        for op_name in ("Measure", "QFree", "LazyMeasureLeaked")
+    ),
 ]
 
 
